@@ -5,6 +5,11 @@ D="$1"; shift
 W=/tmp/brk-C13
 cd $W || exit 2
 git checkout -q -- . ; rm -f sdk/tests/demo_verif.rs
+# pick the newest base commit the patch applies to
+for base in $(git -C /repo rev-parse HEAD) 7f9f60f92 3957fafb8; do
+  git checkout -q --detach $base 2>/dev/null || continue
+  if git apply --check "$D/patch.diff" 2>/dev/null; then echo "base $base" > "$D/confirm_base.txt"; break; fi
+done
 cp "$D/demo.rs" sdk/tests/demo_verif.rs
 F="--features file_io,fetch_remote_manifests"
 cargo test --offline -p c2pa $F --test demo_verif > "$D/confirm_without.txt" 2>&1; r1=$?
